@@ -170,7 +170,22 @@ fn main() {
     let path = std::env::args().nth(1).expect("scenario file");
     let scenario: Value = serde_json::from_slice(&std::fs::read(path).expect("read scenario")).expect("scenario json");
     let handle = std::thread::Builder::new().name("scenario".into()).spawn(move || {
-        for b in jarr(&scenario, "builds") {
+        for (i, b) in jarr(&scenario, "builds").iter().enumerate() {
+            if i > 0 && scenario.get("restore_standins").and_then(Value::as_bool).unwrap_or(false) {
+                // a docker / pack executable that a scripted fault removed during the previous build is back for this one
+                if let (Ok(dir), Ok(target)) = (std::env::var("VP_STANDIN_BIN"), std::env::var("VP_STANDIN_TARGET")) {
+                    for n in ["docker", "pack"] {
+                        let p = std::path::Path::new(&dir).join(n);
+                        if p.symlink_metadata().is_err() {
+                            let _ = std::os::unix::fs::symlink(&target, &p);
+                        }
+                    }
+                }
+            }
+            if let Some(d) = b.get("manifest_dir").and_then(Value::as_str) {
+                // (tests of several crates can share a process: the variable is read when the build starts)
+                unsafe { std::env::set_var("CARGO_MANIFEST_DIR", d) };
+            }
             TestRunner::default().build(build_config(&b["config"]), |ctx| build_body(ctx, jarr(b, "body")));
         }
     }).expect("spawn");
